@@ -110,6 +110,10 @@ def check(ctx, case):
                 # the converters derive orderings from conditions and effects only, not from the fluents a duration
                 # bound reads (known finding)
                 trig = ":duration-reads-written-fluent"
+            elif why2 in ("condition", "goal") and _end_relative_intermediate(plan):
+                # a condition window / effect of an executed action placed relative to the action's END with a non-zero
+                # offset (end - 1/2): such intermediate points are not ordered against timed effects (known finding)
+                trig = ":end-relative-intermediate-timing"
             raise Violation(
                 f"back-converted-plan-invalid:{why2}{trig}",
                 f"valid plan {desc} -> STN -> {desc2}, which the reference semantics rejects ({why2})",
@@ -125,6 +129,17 @@ def check(ctx, case):
         if (len(plan) >= 2 and overlap) or problem.timed_effects or problem.timed_goals:
             ctx.nontriv([spec_hash(case["problem"]), desc])
             ctx.cls("nontrivial")
+
+
+def _end_relative_intermediate(plan):
+    from unified_planning.model import DurativeAction
+
+    for _, a, _, _ in plan:
+        if isinstance(a, DurativeAction):
+            tps = [t for t in a.effects] + [x for iv in a.conditions for x in (iv.lower, iv.upper)]
+            if any(t.is_from_end() and t.delay != 0 for t in tps):
+                return True
+    return False
 
 
 def _duration_reads_written_fluent(problem):
